@@ -85,6 +85,20 @@ def instr_ast(mnem, ops):
         if i is not None:
             return ".LEAQx %s %s %s %s" % (li(d), r(b), r(i), r(o[1]))
         return ".LEAQ %s %s %s" % (li(d), r(b), r(o[1]))
+    if mnem == "ORL" and o[0].startswith("$"):
+        return ".ORLi %d %s" % (int(o[0][1:], 0), r(o[1]))
+    if mnem == "MOVD" and o[0] in REGS and o[1] in XREGS:
+        return ".MOVD %s %s" % (r(o[0]), xr(o[1]))
+    if mnem == "MOVQ" and len(o) == 2 and o[0] in REGS and o[1] in XREGS:
+        return ".MOVQrx %s %s" % (r(o[0]), xr(o[1]))
+    if mnem == "PUNPCKLBW":
+        return ".PUNPCKLBW %s %s" % (xr(o[0]), xr(o[1]))
+    if mnem == "PSHUFL" and o[0].startswith("$"):
+        return ".PSHUFL %d %s %s" % (int(o[0][1:], 0), xr(o[1]), xr(o[2]))
+    if mnem == "CMPQ" and len(o) == 2 and o[0] in REGS and o[1].startswith("$"):
+        return ".CMPQi %s %d" % (r(o[0]), int(o[1][1:], 0))
+    if mnem == "CMPB" and "HasAVX2" in ops and o[-1] == "$1":
+        return ".CMPBavx2"
     if mnem == "ANDQ" and o[0].startswith("$"):
         return ".ANDQi %d %s" % (int(o[0][1:], 0), r(o[1]))
     if mnem == "ADDQ" and o[0].startswith("$"):
@@ -105,7 +119,7 @@ def instr_ast(mnem, ops):
         if o[0].startswith("$"):
             return ".MOVQimm %s %s" % (li(int(o[0][1:], 0)), r(b))
         return ".MOVQst %s %s" % (r(o[0]), r(b))
-    if mnem in ("JEQ", "JZ", "JNZ", "JAE", "JMP", "JB", "JBE") and len(o) == 1 and re.match(r"^\w+$", o[0]):
+    if mnem in ("JEQ", "JZ", "JNZ", "JAE", "JMP", "JB", "JBE", "JLT", "JA", "JNE") and len(o) == 1 and re.match(r"^\w+$", o[0]):
         return '.%s "%s"' % (mnem, o[0])
     if mnem == "RET":
         return ".RET"
@@ -143,6 +157,44 @@ def small_prog(path, sym, labels=("small", "endofpage", "failure", "endzero")):
     return "[\n" + ",\n".join(rows) + "]"
 
 
+def body_prog(path, sym):
+    """every label of a kernel body, in source order, as an Asm.Prog literal; the code before the first label is
+    block "entry"; instructions outside the modelled subset become .STUCK"""
+    cur_sym, label, blocks, order = "", "entry", {}, []
+    stuck = 0
+    for raw in open(path, encoding="utf-8"):
+        line = raw.split("//")[0].strip()
+        if not line or line.startswith("#"):
+            continue
+        m = re.match(r"TEXT\s+([^\s(]+)\(SB\)", line)
+        if m:
+            cur_sym = m.group(1).replace("\u00b7", "").replace("<>", "")
+            label = "entry"
+            continue
+        if cur_sym != sym:
+            continue
+        m = re.match(r"^([A-Za-z_][\w]*):$", line)
+        if m:
+            label = m.group(1)
+            if label not in blocks:
+                blocks[label] = []
+                order.append(label)
+            continue
+        parts = line.split(None, 1)
+        if parts[0] == "PCALIGN":
+            continue
+        if label not in blocks:
+            blocks[label] = []
+            order.append(label)
+        try:
+            blocks[label].append(instr_ast(parts[0], parts[1] if len(parts) > 1 else ""))
+        except ValueError:
+            blocks[label].append(".STUCK")
+            stuck += 1
+    rows = ['  ("%s", [%s])' % (l, ", ".join(blocks[l])) for l in order]
+    return "[\n" + ",\n".join(rows) + "]", stuck
+
+
 def lean_int(i):
     return str(i) if i >= 0 else "(%d)" % i
 
@@ -164,40 +216,16 @@ def main():
             rows.append('  ("%s", "%s", "%s", [%s])' % (os.path.basename(f), sym, label, body))
     w.append(",\n".join(rows))
     w.append("]")
-    # instruction-level programs of the `len < 16` search paths (SC/Model/Asm.lean); an instruction outside the
-    # modelled subset is reported as a translator failure
+    # the whole bodies (all labels; the AVX2 code is outside the modelled subset and appears as .STUCK)
     for f, sym in [("internal/bytealg/indexbyte_go122_amd64.s", "indexbytebody"),
                    ("internal/bytealg/indexbyte_go122_amd64.s", "indexbytebodyCase"),
                    ("internal/bytealg/index_non_ascii_go122_amd64.s", "indexByteBodyNonASCII"),
                    ("internal/bytealg/count_go122_amd64.s", "countbody"),
                    ("internal/bytealg/count_go122_amd64.s", "countbodyCase")]:
-        try:
-            lit = small_prog(os.path.join(repo, f), sym)
-        except ValueError as e:
-            print("asmfacts: the small path of %s uses an instruction outside the modelled subset: %s" % (sym, e))
-            sys.exit(1)
+        lit, stuck = body_prog(os.path.join(repo, f), sym)
         w.append("open _root_.Asm.Instr _root_.Asm.Reg _root_.Asm.XReg in")
-        w.append("def small_%s : _root_.Asm.Prog := %s" % (sym, lit))
-    # the SSE search loops (labels sse … ssesuccess, in source order: execution falls through between them)
-    for f, sym in [("internal/bytealg/indexbyte_go122_amd64.s", "indexbytebody"),
-                   ("internal/bytealg/indexbyte_go122_amd64.s", "indexbytebodyCase"),
-                   ("internal/bytealg/index_non_ascii_go122_amd64.s", "indexByteBodyNonASCII")]:
-        try:
-            lit = small_prog(os.path.join(repo, f), sym, ("sse", "sseloop", "sseloopentry", "failure", "ssesuccess"))
-        except ValueError as e:
-            print("asmfacts: the SSE loop of %s uses an instruction outside the modelled subset: %s" % (sym, e))
-            sys.exit(1)
-        w.append("open _root_.Asm.Instr _root_.Asm.Reg _root_.Asm.XReg in")
-        w.append("def sse_%s : _root_.Asm.Prog := %s" % (sym, lit))
-    # the SSE counting loops (labels sse … end)
-    for f, sym in [("internal/bytealg/count_go122_amd64.s", "countbody"), ("internal/bytealg/count_go122_amd64.s", "countbodyCase")]:
-        try:
-            lit = small_prog(os.path.join(repo, f), sym, ("sse", "sseloop", "sseloopentry", "end"))
-        except ValueError as e:
-            print("asmfacts: the SSE loop of %s uses an instruction outside the modelled subset: %s" % (sym, e))
-            sys.exit(1)
-        w.append("open _root_.Asm.Instr _root_.Asm.Reg _root_.Asm.XReg in")
-        w.append("def ssecnt_%s : _root_.Asm.Prog := %s" % (sym, lit))
+        w.append("/-- %d instructions outside the modelled subset -/" % stuck)
+        w.append("def body_%s : _root_.Asm.Prog := %s" % (sym, lit))
     w.append("end Gen.Asm")
     text = "\n".join(w) + "\n"
     if not (os.path.exists(out) and open(out).read() == text):
